@@ -102,7 +102,8 @@ class HistProp:
                 cases += self.extra_cases(tier)
             g, stats = self.gen_cases(seed, n)
             cases += g
-        mism, pfails, nlines, nchecked = kv.run_cases(cases, 'run-' + pid)
+        mism, pfails, nlines, nchecked = kv.run_cases(cases, 'run-' + pid, kslice_pid=None if args.replay else pid)
+        kslice_res = kv.LAST_KSLICE if not args.replay else None
         byname = dict(cases)
         mine = [f for f in pfails if f['prop'] == pid or f['prop'] in self.also]
         # The histories are sequential and deterministic: a genuine failure shows again when its case is run alone.
@@ -189,6 +190,16 @@ class HistProp:
                 path = kv.write_replay(pid, 'corr', content)
                 verdict_lines.append('VIOLATION property=%s replay=%s no-failing-input-found' % (pid, path))
             violations = len(mism)
+        elif kslice_res and [c for c in kslice_res['disagreeing'] if c not in known_cases and c not in {m['case'] for m in mism}]:
+            bad = [c for c in kslice_res['disagreeing'] if c not in known_cases]
+            content = ('# correspondence corr:%s/in-kernel no longer checks: the Coq kernel, evaluating History.hrun by vm_compute on histories '
+                       'of this run, ends with another abstract log than the implementation\'s last scan, although the extracted model '
+                       'agreed with the implementation on every result line\n# cases: %s\n%s\n' % (pid, bad[:5], kslice_res.get('log', '')))
+            if bad[0] in byname:
+                content += 'case replay\n' + '\n'.join(byname[bad[0]]) + '\n'
+            path = kv.write_replay(pid, 'corr', content)
+            verdict_lines.append('VIOLATION property=%s replay=%s no-failing-input-found' % (pid, path))
+            violations = len(bad)
         elif nob == 0 or ndis < nob or any(not ok_axiom(x) for x in axioms):
             content = ('# theorem file coq/Properties/%s.v no longer checks (obligations=%d discharged=%d axioms=%s)\n%s\n'
                        % (pid, nob, ndis, axioms, thlog))
@@ -212,6 +223,12 @@ class HistProp:
             property_checker_failures=len(mine), known_finding_hits=len(known_hits),
             failures_not_reproduced_when_run_again=unconfirmed,
             input_distribution=stats, corpus_cases=len(load_corpus(pid)))
+        if kslice_res:
+            cov['in_kernel_slice'] = dict(histories_evaluated_by_vm_compute=kslice_res['cases'],
+                                          disagreeing=len(kslice_res['disagreeing']), seconds=round(kslice_res['seconds'], 1),
+                                          rule='histories of this run made of open / close / publish / delete / index removal and reads only, cut at '
+                                               'their last full scan: abs (fst (hrun fnv64a init_state ops)) evaluated by coqc (vm_compute) must be '
+                                               'the implementation\'s scan and NextOffset')
         cov.update(extra_cov)
         kv.write_evidence(pid, tier, seed, cov, self.assumptions, time.time() - t0, violations)
         for l in verdict_lines:
